@@ -26,6 +26,8 @@ def _consts(mon, quick):
         return {"letters": [0, 1], "W": 2, "maxkey": 1 if quick else 2, "maxval": 1, "maxrecs": 2, "maxn": 2}
     if mon == "C17a":
         return {"letters": [0, 1] if quick else [0, 1, 2], "W": 2, "maxkey": 2, "maxval": 2, "maxrecs": 1, "maxn": 2}
+    if mon == "C17d":
+        return {"letters": [0, 1], "W": 2, "maxkey": 1, "maxval": 1, "maxrecs": 1, "maxn": 3 if quick else 4}
     return {"letters": [0, 1, 2], "W": 2, "maxkey": 2, "maxval": 2, "maxrecs": 2, "maxn": 2 if quick else 3}
 
 
@@ -92,6 +94,15 @@ def run(pid, tier):
             raise vlib.ToolError("vacuity guard: %s holds in MC_Auth (the model never %s)" % (
                 guard, "accepts" if guard == "NeverAccepts" else "refuses"))
     cov["legs"]["A_vacuity"] = {"accepting_and_refusing_transitions_reachable": True}
+    # client side of the read exchange (PrivClient sessions): freshness + refusal of replayed replies
+    ad = auth.leg_a("C17d", _consts("C17d", quick), framed, ["C17b", "C17d"], workers=4)
+    a_states += ad["distinct"]
+    a_trans += ad["states"]
+    cov["legs"]["A_model_client_sessions"] = {"max_versions_and_gets": _consts("C17d", quick)["maxn"], "states": ad["distinct"],
+                                              "transitions": ad["states"], "violated": ad["violated"],
+                                              "wall_s": round(ad["wall_s"], 1)}
+    if ad["violated"]:
+        hypotheses.append({"mon": "C17d", "violated": ad["violated"], "counterexample": None})
 
     # ---- leg B: TLC-generated case matrix on the real implementation's session states
     d = vlib.workdir("auth-b")
@@ -148,16 +159,60 @@ def run(pid, tier):
     have = {v["key"] for v in violations}
     violations += [v for v in _violations_from(trep, "leg C (sessions)", lambda ex: ex["n"]) if v["key"] not in have]
 
+    # ---- leg D: the client side of the read exchange, as the real PrivClient performs it over gRPC
+    clibin = auth.build_client()
+    dd = vlib.workdir("auth-d")
+    depth, nwalk_c = (6, 5000) if quick else (5, 60000)
+    seqs_file = os.path.join(dd, "seqs.ndjson")
+    nseq = auth.client_seqs(tier, depth, seqs_file)
+    td = time.time()
+    r1 = auth.client_run(clibin, seqs_file, os.path.join(dd, "steps_model.ndjson"))
+    r2 = auth.client_walk(clibin, nwalk_c, os.path.join(dd, "steps_walk.ndjson"))
+    csteps = os.path.join(dd, "steps.ndjson")
+    ncs = auth.concat_steps([os.path.join(dd, "steps_model.ndjson"), os.path.join(dd, "steps_walk.ndjson")], csteps)
+    run_s = time.time() - td
+    ct = auth.client_trace_tlc(csteps)
+    crep = ct["report"]
+    if crep["steps"] != ncs:
+        raise vlib.ToolError("leg D: %d steps written, %d loaded" % (ncs, crep["steps"]))
+    cov["legs"]["D_client_sessions"] = {
+        "sessions_generated_by_tlc": nseq, "session_length": depth, "model_session_steps": r1.get("steps", 0),
+        "random_sessions": r2.get("sequences", 0), "random_steps": r2.get("steps", 0),
+        "steps_validated": crep["steps"], "gets_observed": crep["gets"], "accepted_gets": crep["accepted_gets"],
+        "refused_replays": crep["refused_replays"], "max_gets_in_session": crep["max_gets_in_session"],
+        "spec_divergences": crep["divergence_count"],
+        "violation_keys": {auth.key_str(v["key"]): v["count"] for v in crep["violations"]},
+        "violated": ct["violated"], "wall_s": round(run_s + ct["wall_s"], 1)}
+    divergences += [{"leg": "D", **x} for x in crep["divergences"]]
+    for v in sorted(crep["violations"], key=lambda v: v["line"]):
+        ex = v["example"]
+        with open(csteps) as f:
+            rows = [json.loads(x) for x in f]
+        sess = [x["req"] for x in rows if x["seq"] == ex["seq"] and x["step"] <= ex["step"]]
+        violations.append({"key": auth.key_str(v["key"]),
+                           "what": "%s [%d such observations in leg D (real PrivClient sessions)]" % (
+                               auth.describe_client(ex), v["count"]),
+                           "replay": {"kind": "authcli-seq", "requests": sess}})
+    if len(samples) < 8:
+        with open(csteps) as f:
+            for x in f:
+                e = json.loads(x)
+                if e["req"]["op"] == "GetReplay":
+                    samples.append({"leg": "D", "request": e["req"], "nonce_on_the_wire": bytes(e["resp"]["nonce"]).hex(),
+                                    "client_accepted": e["resp"]["ok"], "client_error": e["resp"]["err"]})
+                    break
+
     code, unknown, known = vlib.verdict(pid, violations)
-    ndiv = rep["divergence_count"] + trep["divergence_count"]
+    ndiv = rep["divergence_count"] + trep["divergence_count"] + crep["divergence_count"]
     if ndiv:
-        log("[C17] NOTE: %d implementation edges/steps are not edges of Auth.tla with framed=%s (the specification "
-            "switch spec/auth_switches.json needs updating; not a property violation)" % (ndiv, framed))
+        log("[C17] NOTE: %d implementation edges/steps are not edges of Auth.tla (framed=%s; legs B/C/D: %d/%d/%d) - the "
+            "specification (or its switch spec/auth_switches.json) needs updating; not a property violation" % (
+                ndiv, framed, rep["divergence_count"], trep["divergence_count"], crep["divergence_count"]))
     model_only = [h for h in hypotheses if not violations]
     cov.update({
-        "states": max(1, a_states + b["distinct"] + tr["distinct"]),
-        "transitions": max(1, a_trans + b["states"] + tr["states"]),
-        "traces_validated_against_impl": rep["edges"] + trep["steps"],
+        "states": max(1, a_states + b["distinct"] + tr["distinct"] + ct["distinct"]),
+        "transitions": max(1, a_trans + b["states"] + tr["states"] + ct["states"]),
+        "traces_validated_against_impl": rep["edges"] + trep["steps"] + crep["steps"],
         "samples": samples or [{"note": "no accepted modified input"}],
         "exhaustive": True,
         "spec_divergence_count": ndiv,
@@ -168,7 +223,10 @@ def run(pid, tier):
                        "universe against all others), (b) generates the case matrix (every alternative parse of the "
                        "unframed bytes, every single-bit flip and structural edit, every context, modified tags) and "
                        "judges every acceptance decision the real code made on it in every session state, (c) "
-                       "validates simulated and random sessions replayed through the real code",
+                       "validates simulated and random sessions replayed through the real code, (d) generates every client "
+                       "session of a bounded length (puts, gets, gets answered with an earlier recorded reply), runs them "
+                       "through the real lightning_storage_server PrivClient over gRPC and judges the nonces seen on the "
+                       "wire (freshness, C17d) and the acceptance of replayed replies",
     })
     vlib.write_evidence(pid, tier, "model_checking", cov,
                         ["HMAC-SHA256 is collision and second-pre-image resistant and unforgeable without the key: two "
@@ -180,6 +238,9 @@ def run(pid, tier):
                          "client driver.rs) are mirrored by byte comparison in the harness",
                          "small scope: keys up to 3 bytes, values up to 9 bytes, up to 3 records in the matrix; random "
                          "sessions up to 12-byte keys, 40-byte values",
+                         "leg D: the storage endpoint is the harness' transcription of the lssd put/get handlers (real "
+                         "compute_shared_hmac, next-version rule) behind a recording/replaying intermediary; the client "
+                         "(nonce construction, request, reply checks) is the real PrivClient",
                          "TLC and the Json/IOUtils community modules"],
                         time.time() - t0, unknown + known)
     return code
@@ -188,6 +249,8 @@ def run(pid, tier):
 def replay(pid, obj):
     """Re-run a recorded violating request sequence on the real implementation and let TLC judge."""
     rp = obj["replay"]
+    if rp.get("kind") == "authcli-seq":
+        return _replay_client(pid, rp)
     binpath = vlib.build("auth")
     d = vlib.workdir("auth-replay")
     steps_file = os.path.join(d, "steps.ndjson")
@@ -197,6 +260,29 @@ def replay(pid, obj):
         e = json.loads(x)
         print("  n=%d %s -> %s" % (e["pre"]["n"], json.dumps(e["req"], sort_keys=True), json.dumps(e["resp"], sort_keys=True)))
     keys = [auth.key_str(v["key"]) for v in tr["report"]["violations"]]
+    if keys:
+        print("  monitor: %s" % ", ".join(keys))
+        print("VIOLATION property=%s replay=%s" % (pid, "(reproduced)"))
+        return 1
+    print("not reproduced")
+    return 0
+
+
+def _replay_client(pid, rp):
+    clibin = auth.build_client()
+    d = vlib.workdir("auth-replay")
+    sf = os.path.join(d, "seqs.ndjson")
+    with open(sf, "w") as f:
+        f.write(json.dumps(rp["requests"]) + "\n")
+    steps_file = os.path.join(d, "steps.ndjson")
+    auth.client_run(clibin, sf, steps_file)
+    ct = auth.client_trace_tlc(steps_file, name="trace-auth-client-replay")
+    for x in open(steps_file):
+        e = json.loads(x)
+        print("  %s p=%s j=%d -> ok=%s %s nonce=%s" % (e["req"]["op"], bytes(e["req"]["p"]).decode("ascii", "replace"),
+                                                    e["req"]["j"], e["resp"]["ok"], e["resp"]["err"],
+                                                    bytes(e["resp"]["nonce"]).hex() or "''"))
+    keys = [auth.key_str(v["key"]) for v in ct["report"]["violations"]]
     if keys:
         print("  monitor: %s" % ", ".join(keys))
         print("VIOLATION property=%s replay=%s" % (pid, "(reproduced)"))
